@@ -6,8 +6,10 @@ import importlib.util
 import inspect
 import math
 import operator
+import os
 import socket
 import sys
+import threading
 import warnings
 from pathlib import Path
 from typing import TYPE_CHECKING, Any, TypeGuard
@@ -42,8 +44,11 @@ def load(path: Path, *, cache: bool = False) -> Any:
 def dump(obj: Any, path: Path) -> None:
     """Dump an object to a path using cloudpickle."""
     path.parent.mkdir(parents=True, exist_ok=True)
-    with path.open("wb") as f:
+    # Write to a temporary file and rename it, such that `path` never holds a partially written file
+    tmp = path.with_name(f".{path.name}.{os.getpid()}.{threading.get_ident()}.tmp")
+    with tmp.open("wb") as f:
         cloudpickle.dump(obj, f)
+    tmp.replace(path)
 
 
 def _get_cache_key(path: Path) -> tuple:
